@@ -68,13 +68,15 @@ func (y *yamlRun) run(ls []string, eol string, at int, fault string, seek, noInd
 	}
 	rep := parseReport(errText, "yaml", "f.yaml")
 	assertWidth(rep.excerpt)
-	y.lines = append(y.lines, fmt.Sprintf("x%x %d", text, idx))
-	if msg, plain := plainYAMLMessage(errText, "f.yaml"); plain && msg != "" && !rep.ok {
-		y.impl = append(y.impl, "noindex")
-	} else {
-		y.impl = append(y.impl, rep.wire())
+	if len(text) <= 1<<18 { // larger texts go through the oracle only
+		y.lines = append(y.lines, fmt.Sprintf("x%x %d", text, idx))
+		if msg, plain := plainYAMLMessage(errText, "f.yaml"); plain && msg != "" && !rep.ok {
+			y.impl = append(y.impl, "noindex")
+		} else {
+			y.impl = append(y.impl, rep.wire())
+		}
+		y.st.Distribution[fmt.Sprintf("fault=%q", fault)]++
 	}
-	y.st.Distribution[fmt.Sprintf("fault=%q", fault)]++
 
 	// oracle through the command
 	tr := transport{"script", []int{4096}}
@@ -142,7 +144,7 @@ func yamlChecks() {
 	y.st = ctx.NewStream("yaml", "Gojq.Cli.yamlReport (getLineByOffset(contents, index+1))",
 		"yamlParseError.Error of the real yamlInputIter for YAML texts (3–3000 lines, LF/CRLF, seekable and not) with one faulty line; the model is given the index go-yaml reported; distinct = distinct implementation answers")
 	y.orc = ctx.NewOracle("yaml-line",
-		"`gojq --yaml-input empty` (file and non-seekable stdin, LF/CRLF, 3–3000 lines, some multi-document, multi-byte characters in values) with one top-level line replaced by a fault whose place go-yaml reports on that line ("+strings.Join(quoteAll(yamlFaults), ", ")+"): the printed line number must be the faulty line and the excerpt part of it; faults go-yaml reports without an index ("+strings.Join(quoteAll(yamlFaultsNoIndex), ", ")+") must either be located the same way or be printed as `invalid yaml: <name>: <non-empty message>` without any position; distinct = distinct (fault, transport, terminator, line/100)")
+		"`gojq --yaml-input empty` (file and non-seekable stdin, LF/CRLF, 3–3000 lines and 12 000–130 000 lines (0.4–4 MiB), some multi-document, multi-byte characters in values) with one top-level line replaced by a fault whose place go-yaml reports on that line ("+strings.Join(quoteAll(yamlFaults), ", ")+"): the printed line number must be the faulty line and the excerpt part of it; faults go-yaml reports without an index ("+strings.Join(quoteAll(yamlFaultsNoIndex), ", ")+") must either be located the same way or be printed as `invalid yaml: <name>: <non-empty message>` without any position; distinct = distinct (fault, transport, terminator, line/100)")
 	r := ctx.R.Fork(8)
 	// fixed cases first (the replays quoted for the known defect classes)
 	y.run([]string{"a: \"漢漢漢漢\"", "b: 1", "c: 1: 2", "d: 3"}, "\n", 2, "c: 1: 2", false, false)
@@ -169,6 +171,23 @@ func yamlChecks() {
 		}
 		ls[at] = fault
 		y.run(ls, eol, at, fault, r.Bool(), noIndex)
+	}
+	// inputs larger than any buffer or re-read limit (256 KiB … 3 MiB), the fault in the last part
+	for bi, nl := range []int{12000, 45000, 60000, 130000} {
+		if !ctx.Thorough && bi == 3 {
+			continue
+		}
+		for _, seek := range []bool{true, false} {
+			ls := make([]string, nl)
+			for i := range ls {
+				ls[i] = fmt.Sprintf("key%07d: value-%07d-xxxxxxxx", i, i)
+			}
+			at := nl - 1 - r.Intn(nl/20)
+			fault := common.Pick(r, yamlFaults)
+			ls[at] = fault
+			y.orc.Distribution[fmt.Sprintf("large:%dKiB:seek=%v", len(ls)*32/1024, seek)]++
+			y.run(ls, "\n", at, fault, seek, false)
+		}
 	}
 	y.orc.Distinct = len(y.distinct)
 	y.orc.Samples = []string{"3000-line mapping, line 1501 replaced by `k: 1: 2`, through a pipe", "`k: *unknown` (go-yaml error without index)"}
